@@ -101,7 +101,19 @@ class KernelDomain(IndexDomain):
             if self.rat(n) is None or self.rat(lo) is None:
                 return Unknown('arange of non-scalars')
             return self.mkvec(lo, n)
-        if dotted == 'numpy.outer' and len(args) == 2 and all(isinstance(a, Vec) for a in args):
+        if dotted == 'numpy.matmul' and len(args) == 2 and not kwargs:
+            return self._matmul(args[0], args[1], node)
+        if dotted in ('numpy.multiply', 'numpy.add', 'numpy.subtract', 'numpy.divide', 'numpy.true_divide') and len(args) == 2 and set(kwargs) == {'out'} \
+                and isinstance(kwargs['out'], (Vec, Mat)) and any(kwargs['out'] is a for a in args):
+            # ufunc(x, v, out=x) is `x op= v`: the object bound to x takes the new elements (value semantics otherwise, as for augassign)
+            op = {'multiply': ast.Mult, 'add': ast.Add, 'subtract': ast.Sub, 'divide': ast.Div, 'true_divide': ast.Div}[last]()
+            res = it.binop(op, args[0], args[1], node)
+            out = kwargs['out']
+            if type(res) is not type(out):
+                return Unknown('ufunc with out= changes the kind of value')
+            out.__dict__.update(res.__dict__)
+            return out
+        if dotted in ('numpy.outer', 'numpy.multiply.outer') and len(args) == 2 and all(isinstance(a, Vec) for a in args):
             a, b = args
             return Mat(it.binop(ast.Mult(), a.elem, b.elem, node), a.idx, b.idx, a.n, b.n)
         if dotted == 'numpy.square' and len(args) == 1 and isinstance(args[0], (Vec, Mat, PieceVec)):
